@@ -1,0 +1,44 @@
+//go:build verif
+
+package rsm
+
+import (
+	sm "github.com/lni/dragonboat/v4/statemachine"
+)
+
+// VerifC05Session is a deep copy of one entry of the client session table.
+type VerifC05Session struct {
+	History       map[uint64]sm.Result
+	ClientID      uint64
+	RespondedUpTo uint64
+}
+
+// VerifC05Dump returns the size of the session LRU and a deep copy of its
+// content, most recently used first. It walks the list without calling Get, so
+// the LRU order is not changed by the observation.
+func (s *StateMachine) VerifC05Dump() (uint64, []VerifC05Session) {
+	rec := s.sessions.lru
+	rec.Lock()
+	defer rec.Unlock()
+	out := make([]VerifC05Session, 0)
+	rec.sessions.OrderedDo(func(k, v interface{}) {
+		ses := v.(*Session)
+		c := VerifC05Session{
+			ClientID:      uint64(ses.ClientID),
+			RespondedUpTo: uint64(ses.RespondedUpTo),
+			History:       make(map[uint64]sm.Result),
+		}
+		if uint64(*(k.(*RaftClientID))) != c.ClientID {
+			panic("verif: key and session client id differ")
+		}
+		for sid, r := range ses.History {
+			c.History[uint64(sid)] = sm.Result{Value: r.Value, Data: append([]byte(nil), r.Data...)}
+		}
+		out = append(out, c)
+	})
+	// OrderedDo goes from the back (least recently used) to the front
+	for i, j := 0, len(out)-1; i < j; i, j = i+1, j-1 {
+		out[i], out[j] = out[j], out[i]
+	}
+	return rec.size, out
+}
